@@ -11,6 +11,7 @@ import (
 	"fmt"
 	"runtime"
 	"sync"
+	"sync/atomic"
 	"testing"
 
 	"pgregory.net/rapid"
@@ -22,6 +23,24 @@ type c09Case struct {
 	Seqs     [][]int  `json:"seqs"`     // per goroutine: indices into the pool
 	From     []bool   `json:"from"`     // per goroutine: use MatchFrom
 	MaxProcs int      `json:"maxprocs"` // GOMAXPROCS for the batch
+	// Trace > 0: the batch runs on a fresh (cold) small-corpus classifier with a trace configuration installed
+	// (wildcard license filters, thread-safe Tracer), so the tracing paths are exercised concurrently as well.
+	Trace int `json:"trace,omitempty"`
+}
+
+var c09TraceHits int64
+
+func c09TraceConfig(k int) *TraceConfiguration {
+	tr := func(f string, args ...interface{}) { atomic.AddInt64(&c09TraceHits, 1) }
+	switch k % 4 {
+	case 1:
+		return &TraceConfiguration{TracePhases: "", TraceLicenses: "*", Tracer: tr}
+	case 2:
+		return &TraceConfiguration{TracePhases: "tokenize", TraceLicenses: "License/*,Header/A*", Tracer: tr}
+	case 3:
+		return &TraceConfiguration{TracePhases: "tokenize,frequency", TraceLicenses: "License/MIT/*,Header/*,Supplement/*", Tracer: tr}
+	}
+	return &TraceConfiguration{TracePhases: "tokenize", TraceLicenses: "License/MIT/license.txt", Tracer: tr}
 }
 
 var (
@@ -39,6 +58,9 @@ func c09Setup() {
 
 func c09Gen(t *rapid.T) interface{} {
 	c := &c09Case{MaxProcs: lib.PickInt(t, []int{2, 4, 16}, "maxprocs")}
+	if lib.IntN(t, 0, 1, "withTrace") == 0 {
+		c.Trace = lib.IntN(t, 1, 8, "trace")
+	}
 	np := lib.IntN(t, 3, 6, "npool")
 	for i := 0; i < np; i++ {
 		// edited documents are what sends go-diff into its half-match path
@@ -50,6 +72,10 @@ func c09Gen(t *rapid.T) interface{} {
 		c.Pool = append(c.Pool, recipe{Segs: []seg{s}})
 	}
 	g := lib.PickInt(t, []int{2, 4, 8, 16, 32, 64}, "goroutines")
+	if c.Trace > 0 && g < 8 {
+		g = 16
+		c.MaxProcs = 16
+	}
 	per := lib.IntN(t, 2, 6, "perGoroutine")
 	for i := 0; i < g; i++ {
 		var seq []int
@@ -68,12 +94,32 @@ func c09Check(ci interface{}) lib.Outcome {
 		return lib.Outcome{Skip: "malformed"}
 	}
 	c09Setup()
+	shared := c09Shared
+	var traceSel corpusSel
+	if c.Trace > 0 {
+		// cold classifier over a small corpus: the documents of the pool plus a fixed handful
+		traceSel = smallFixedCorpus()
+		for _, r := range c.Pool {
+			traceSel.Docs = append(traceSel.Docs, r.docs()...)
+		}
+		shared = buildClassifier(0.8, traceSel.files())
+		shared.SetTraceConfiguration(c09TraceConfig(c.Trace))
+	}
 	inputs := make([][]byte, len(c.Pool))
 	ref := make([]string, len(c.Pool))
 	fuzzy := 0
 	for i, r := range c.Pool {
 		inputs[i] = r.build(c09Ref)
-		res := c09Ref.Match(inputs[i]) // sequential reference on a separate instance
+		var res Results
+		if c.Trace > 0 {
+			sel := smallFixedCorpus()
+			for _, r := range c.Pool {
+				sel.Docs = append(sel.Docs, r.docs()...)
+			}
+			res = classifierFor(0.8, sel).Match(inputs[i]) // sequential reference, same small corpus, no tracing
+		} else {
+			res = c09Ref.Match(inputs[i]) // sequential reference on a separate instance
+		}
 		ref[i] = resultString(res)
 		for _, m := range res.Matches {
 			if m.MatchType != "Copyright" && m.Confidence < 1 {
@@ -91,33 +137,46 @@ func c09Check(ci interface{}) lib.Outcome {
 	}
 	var mu sync.Mutex
 	var first *bad
-	var wg sync.WaitGroup
-	start := make(chan struct{})
-	for g := range c.Seqs {
-		wg.Add(1)
-		go func(g int) {
-			defer wg.Done()
-			<-start
-			for step, k := range c.Seqs[g] {
-				i := ((k % len(inputs)) + len(inputs)) % len(inputs)
-				var res Results
-				if g < len(c.From) && c.From[g] {
-					res, _ = c09Shared.MatchFrom(bytes.NewReader(inputs[i]))
-				} else {
-					res = c09Shared.Match(inputs[i])
-				}
-				if s := resultString(res); s != ref[i] {
-					mu.Lock()
-					if first == nil {
-						first = &bad{g, step, i, s}
-					}
-					mu.Unlock()
-				}
-			}
-		}(g)
+	// Races on lazily filled state are only observable while the state is cold, and the detector needs the two
+	// accesses to be close in time: trace batches are repeated on several fresh classifiers.
+	rounds := 1
+	if c.Trace > 0 {
+		rounds = 5
 	}
-	close(start)
-	wg.Wait()
+	for round := 0; round < rounds && first == nil; round++ {
+		if c.Trace > 0 && round > 0 {
+			shared = buildClassifier(0.8, traceSel.files())
+			shared.SetTraceConfiguration(c09TraceConfig(c.Trace))
+		}
+		cur := shared
+		var wg sync.WaitGroup
+		start := make(chan struct{})
+		for g := range c.Seqs {
+			wg.Add(1)
+			go func(g int) {
+				defer wg.Done()
+				<-start
+				for step, k := range c.Seqs[g] {
+					i := ((k % len(inputs)) + len(inputs)) % len(inputs)
+					var res Results
+					if g < len(c.From) && c.From[g] {
+						res, _ = cur.MatchFrom(bytes.NewReader(inputs[i]))
+					} else {
+						res = cur.Match(inputs[i])
+					}
+					if s := resultString(res); s != ref[i] {
+						mu.Lock()
+						if first == nil {
+							first = &bad{g, step, i, s}
+						}
+						mu.Unlock()
+					}
+				}
+			}(g)
+		}
+		close(start)
+		wg.Wait()
+	}
 	if first != nil {
 		return lib.Outcome{Violation: fmt.Sprintf("goroutine %d, call %d: concurrent Match(%s) returned\n%s\nbut the same call run alone returns\n%s", first.g, first.step, c.Pool[first.input].describe(), first.got, ref[first.input])}
 	}
@@ -126,13 +185,21 @@ func c09Check(ci interface{}) lib.Outcome {
 		names = append(names, r.describe())
 	}
 	return lib.Outcome{Nontrivial: len(c.Seqs) >= 2 && fuzzy > 0, FP: fmt.Sprintf("%v|%v|%v|%d", names, c.Seqs, c.From, c.MaxProcs),
-		Classes: []string{fmt.Sprintf("goroutines-%d", len(c.Seqs)), fmt.Sprintf("gomaxprocs-%d", c.MaxProcs)},
+		Classes: c09Classes(c),
 		Extra:   map[string]int{"concurrent_calls": len(c.Seqs) * len(c.Seqs[0]), "pool_inputs_with_fuzzy_match": fuzzy},
 		Sample:  map[string]interface{}{"pool": names, "goroutines": len(c.Seqs), "calls_per_goroutine": len(c.Seqs[0]), "gomaxprocs": c.MaxProcs}}
 }
 
+func c09Classes(c *c09Case) []string {
+	out := []string{fmt.Sprintf("goroutines-%d", len(c.Seqs)), fmt.Sprintf("gomaxprocs-%d", c.MaxProcs)}
+	if c.Trace > 0 {
+		out = append(out, "tracing-enabled(cold classifier)")
+	}
+	return out
+}
+
 func TestVerif_C09(t *testing.T) {
 	lib.Run(t, lib.Spec{ID: "C09", Part: "concurrent-match",
-		Rule: "batches: 2-64 goroutines released by one barrier, each issuing 2-6 Match/MatchFrom calls on a shared full-corpus classifier over a pool of 3-6 (mostly edited) corpus documents and scenario files, GOMAXPROCS in {2,4,16}; binary built with -race (any report = violation); every result compared with the sequential reference from a separate classifier instance; non-trivial = at least 2 goroutines and a pool input with a fuzzy match (the diff path that touches shared corpus data)",
+		Rule: "batches: 2-64 goroutines released by one barrier, each issuing 2-6 Match/MatchFrom calls on a shared full-corpus classifier over a pool of 3-6 (mostly edited) corpus documents and scenario files, GOMAXPROCS in {2,4,16}; half of the batches run (5 rounds, >= 8 goroutines) on fresh small-corpus classifiers with a trace configuration (wildcard license filters, thread-safe Tracer) installed; binary built with -race (any report = violation); every result compared with the sequential reference from a separate classifier instance; non-trivial = at least 2 goroutines and a pool input with a fuzzy match (the diff path that touches shared corpus data)",
 		New:  func() interface{} { return &c09Case{} }, Gen: c09Gen, Check: c09Check})
 }
